@@ -19,7 +19,7 @@ func GenCfg(t *rapid.T, kind string) Cfg {
 	c := Cfg{Kind: kind}
 	switch kind {
 	case "treeset", "priorityqueue", "treemap", "treebidimap", "redblacktree", "avltree", "btree", "binaryheap":
-		c.Cmp = []string{dom.Nat, dom.Rev}[rapid.IntRange(0, 1).Draw(t, "cmp")]
+		c.Cmp = []string{dom.Nat, dom.Rev, dom.Mag, "revmag"}[rapid.IntRange(0, 3).Draw(t, "cmp")]
 	}
 	if kind == "circularbuffer" {
 		c.Cap = []int{1, 2, 3, 4, 7, 8, 16, 33, 64, 100}[rapid.IntRange(0, 9).Draw(t, "cap")]
